@@ -449,3 +449,69 @@ def run_swap_table(prog, tier, repo):
     res.floor('negations of program constants in mir.rs', len(makers), 1)
     res.analysed['normaliser'] = b.name
     return [res]
+
+
+# ---------------------------------------------------------------------------------------------------------------------
+# BRANCH-PAIR-EMPTY (C02): an `IfElse` statement may be collapsed (replaced by its condition, by a binary statement, or
+# dropped) only when BOTH branch statement lists are empty - each of them can hold calls and traps. Wherever a pass
+# inspects the emptiness of one branch list of an IfElse node (is_empty / len / a slice pattern), the sibling list of the
+# same node has to be inspected too, one test within reach of the other. A lone test means one branch's statements are
+# decided about without being looked at.
+
+def run_branch_pair(prog, tier, repo):
+    from ..core import places_read
+    res = RuleResult('BRANCH-PAIR-EMPTY', 'C02: where a pass tests one branch list of an IfElse statement for emptiness it tests the '
+                     'sibling list of the same node as well (both hold effects; collapsing needs both empty)')
+    EMPT = ('is_empty', 'len', 'as_slice', 'first', 'last', 'split_first', 'split_last')
+    n = 0
+    for b in sorted(prog.bodies.values(), key=lambda x: x.name):
+        if b.crate not in ('samlang_optimization', 'samlang_compiler') or '::tests' in b.name or '_tests::' in b.name:
+            continue
+        tests = {}   # (base root, base path, variant adt) -> {field name: [blocks]}
+        for bi, bl in enumerate(b.blocks):
+            t = bl.term
+            if bl.cleanup or t[0] != 'call' or not t[3]:
+                continue
+            short = (callee(t)[1] or '').split('::')[-1]
+            if short not in EMPT:
+                continue
+            r, path = operand_root(b, t[3][0])
+            fs = [e for e in path if e[0] in ('f', 'v')]
+            if not fs or fs[-1][0] != 'f':
+                continue
+            last = fs[-1]
+            adt = prog.adts.get(last[1])
+            if adt is None or not adt.name.endswith('::Statement') or last[4] not in ('s1', 's2'):
+                continue
+            if adt.variants[last[2]].name != 'IfElse':
+                continue
+            key = (r, tuple((e[0], e[1], e[2]) if e[0] == 'f' else (e[0], e[1]) for e in fs[:-1]), adt.id)
+            tests.setdefault(key, {}).setdefault(last[4], []).append((bi, t[7]))
+        if not tests:
+            continue
+        cfg = cfg_of(b)
+        for key, by_field in sorted(tests.items(), key=lambda kv: str(kv[0])):
+            n += 1
+            k = sum(1 for i in res.instances if i.key.startswith(f'pair:{b.name}#')) + 1
+            ikey = f'pair:{b.name}#{k}'
+            a, c = by_field.get('s1', []), by_field.get('s2', [])
+            if not a or not c:
+                have, miss = ('s1', 's2') if a else ('s2', 's1')
+                line = (a or c)[0][1]
+                res.violation(ikey, b.loc(line), f'{b.name} tests the `{have}` branch list of an IfElse statement for emptiness but '
+                              f'never the `{miss}` list of the same node: a decision that needs both branches free of statements '
+                              f'(collapsing the IfElse into its condition, dropping it) is taken while `{miss}` may still hold calls '
+                              f'or traps, which then vanish from the optimized program')
+                continue
+            lonely = None
+            for (x, ln) in a + c:
+                others = c if (x, ln) in a else a
+                if not any(cfg.nodes_dominate([x], y) or cfg.nodes_dominate([y], x) for y, _ in others):
+                    lonely = ln
+            if lonely is not None:
+                res.violation(ikey, b.loc(lonely), f'{b.name} tests one branch list of an IfElse statement for emptiness on a path '
+                              f'that never tests its sibling list')
+            else:
+                res.ok(ikey, b.loc(a[0][1]), 'both branch lists are tested together')
+    res.floor('IfElse nodes whose branch lists are tested for emptiness', n, 2)
+    return [res]
